@@ -559,3 +559,179 @@ def c20(p, tier, work, t0, replay):
 
 
 PROPS["C20"] = c20
+
+
+# ---------------------------------------------------------------------------------------------
+# C03 process level: the real daemon, real SIGTERM / SIGINT (one or several), restore faults in
+# the driver; final-state oracle on the device files after the process has exited.
+
+def l2_basic_config(work, fans_yaml, extra=""):
+    return """dbPath: {work}/fan2go.db
+runFanInitializationInParallel: true
+maxRpmDiffForSettledFan: 20
+fanResponseDelay: 0
+tempSensorPollingRate: 10ms
+tempRollingWindowSize: 3
+rpmPollingRate: 10ms
+rpmRollingWindowSize: 3
+controllerAdjustmentTickRate: 10ms
+{extra}
+sensors:
+  - id: cpu
+    hwmon:
+      platform: chipa
+      index: 1
+curves:
+  - id: lin
+    linear:
+      sensor: cpu
+      min: 30
+      max: 70
+fans:
+{fans}""".format(work=work, fans=fans_yaml, extra=extra)
+
+
+def c03_l2_scenario(binary, work, idx, rng, merged):
+    sd = os.path.join(work, "sc%d" % idx)
+    os.makedirs(sd, exist_ok=True)
+    orig_mode = rng.choice([0, 1, 2, 2, 5])
+    orig_pwm = rng.choice([0, 77, 255])
+    has_enable = rng.random() < 0.8
+    tree = l2.Tree(os.path.join(sd, "hwmon"))
+    chip = tree.chip("chipa", fans=(1, 2), temps=(1,), orig_mode=orig_mode, orig_pwm=orig_pwm, rpm=1200, enable=has_enable)
+    l2.write(os.path.join(sd, "filefan"), "%d\n" % orig_pwm)
+    nfans = rng.choice([1, 2, 3])
+    fans_yaml = ""
+    devices = []
+    for i in range(1, min(nfans, 2) + 1):
+        fans_yaml += "  - id: f%d\n    hwmon:\n      platform: chipa\n      rpmChannel: %d\n    neverStop: %s\n    curve: lin\n    controlAlgorithm: direct\n" % (i, i, rng.choice(["true", "false"]))
+        devices.append(("hwmon", os.path.join(chip, "pwm%d" % i), os.path.join(chip, "pwm%d_enable" % i) if has_enable else None))
+    if nfans == 3:
+        fans_yaml += "  - id: ff\n    file:\n      path: %s/filefan\n    curve: lin\n    controlAlgorithm: direct\n" % sd
+        devices.append(("file", os.path.join(sd, "filefan"), None))
+    mode_fault = rng.choice(["ok", "ok", "refused", "ignored", "stick1"]) if has_enable else "ok"
+    pwm_fault = rng.choice(["ok", "ok", "ok", "refused255"])
+    rules = []
+    plants = []
+    for kind, pwm, en in devices:
+        if kind != "hwmon":
+            continue
+        if en and mode_fault != "ok":
+            r = {"path": en, "op": "w", "ifNotVal": 1, "action": {"refused": "fail", "ignored": "ignore", "stick1": "stick"}[mode_fault], "errno": "EINVAL", "val": 1}
+            rules.append(r)
+        if pwm_fault == "refused255":
+            rules.append({"path": pwm, "op": "w", "ifVal": 255, "action": "fail", "errno": "EIO"})
+        rules.append({"path": pwm, "op": "w", "action": "quant", "val": rng.choice([4, 6])})
+    nsig = rng.choice([1, 1, 2, 2, 3])
+    sigs = [rng.choice([_signal.SIGTERM, _signal.SIGINT]) for _ in range(nsig)]
+    gaps = [rng.choice([0.0, 0.005, 0.05, 1.0]) for _ in range(nsig - 1)]
+    phase = rng.choice(["startup-wait", "analysis", "analysis-late", "first-second", "ticking", "ticking-late"])
+    case = {"orig_mode": orig_mode, "orig_pwm": orig_pwm, "has_enable": has_enable, "fans": nfans, "mode_fault": mode_fault, "pwm_fault": pwm_fault,
+            "signals": [int(s) for s in sigs], "gaps_s": gaps, "first_signal_phase": phase}
+    cls = "mode%d:enable=%s:modeFault=%s:pwmFault=%s:signals=%d:phase=%s" % (orig_mode, has_enable, mode_fault, pwm_fault, nsig, phase)
+    d = l2.Daemon(binary, sd, l2_basic_config(sd, fans_yaml), tree.root, driver={"rules": rules, "plants": plants}, timescale=10)
+    try:
+        marker, delay = {
+            "startup-wait": (r"Gathering sensor data", 0.05),
+            "analysis": (r"starting initialization sequence|Computing pwm map", 0.05),
+            "analysis-late": (r"Measuring RPM curve|Computing pwm map", 0.3),
+            "first-second": (r"Starting controller loop", 0.02),
+            "ticking": (r"Starting controller loop", 0.4),
+            "ticking-late": (r"Starting controller loop", 1.5),
+        }[phase]
+        if not d.wait_for(marker, 60):
+            if d.p.poll() is None:
+                merged.inconclusive.append("C03 L2 scenario %d: marker %r never appeared: %s" % (idx, marker, d.output()[-600:].replace("\n", " | ")))
+                return
+            # the daemon gave up on its own (an injected write fault hit the initial analysis = fatal error): no signal is
+            # needed, the final-state oracle applies all the same
+            cls += ":daemon-stopped-on-its-own"
+            merged.counters["l2_daemon_stopped_on_its_own"] = merged.counters.get("l2_daemon_stopped_on_its_own", 0) + 1
+        else:
+            time.sleep(delay)
+            for i, s in enumerate(sigs):
+                if i > 0:
+                    time.sleep(gaps[i - 1])
+                d.signal(s)
+        rc = d.wait(90)
+        out = d.output()
+        merged.evaluations += 1
+        replay = {"case": case, "output_tail": out[-3000:]}
+        if rc is None:
+            merged.inconclusive.append("C03 L2 scenario %d: daemon still running 90 s after the first signal (%s)" % (idx, cls))
+            return
+        pm = l2.has_panic(out)
+        if pm:
+            what = "second-signal-panics" if "send on closed channel" in out else "daemon-panicked-during-shutdown"
+            merged.add_violation("%s:signals=%d" % (what, nsig), "%s\n%s" % (cls, out[out.find(pm):][:2000]), replay)
+            return
+        if rc not in (0, 1):
+            merged.add_violation("daemon-exit-status-%s" % rc, "%s: exit %s\n%s" % (cls, rc, out[-1500:]), replay)
+            return
+        events = d.events()
+        for kind, pwm, en in devices:
+            touched = any(e["path"] in (pwm, en) and e["op"] == "w" for e in events) if kind == "hwmon" else True
+            if kind == "file":
+                touched = l2.read_int(pwm) != orig_pwm or "ff" in out
+            final_pwm = l2.read_int(pwm, -1)
+            final_mode = l2.read_int(en, -1) if en else None
+            ok = (en is not None and final_mode == orig_mode and orig_mode != 1) or final_pwm == 255
+            if not ok:
+                wr = [e for e in events if e["path"] == pwm and e["op"] == "w"]
+                if wr and wr[-1]["val"] == 255 and (wr[-1].get("err") or wr[-1].get("action") == "ignore"):
+                    ok = True  # nothing more fan2go could do
+            if not ok and touched:
+                merged.add_violation("fan-left-in-bad-state:%s:%s" % (kind, cls.rsplit(":signals", 1)[0]),
+                                     "%s fan: mode %s (original %s), pwm %s after the daemon exited with %s; %s" % (kind, final_mode, orig_mode, final_pwm, rc, cls), replay)
+        landed = "before-regulation"
+        pos_sig = out.find("Received SIGTERM")
+        pos_loop = out.find("Starting controller loop")
+        if pos_loop >= 0 and pos_sig > pos_loop:
+            landed = "during-regulation"
+        merged.nontrivial.add("l2|%s|%s|%s|%s|%d|%s" % (landed, orig_mode, mode_fault, pwm_fault, nsig, has_enable))
+        merged.sets.setdefault("signal_landed", set()).add(landed + "/" + phase)
+        if not any(isinstance(s, dict) and s.get("kind") == "process-level" for s in merged.samples):
+            merged.samples.append({"kind": "process-level", "case": case, "exit_status": rc, "device_events": len(events)})
+    finally:
+        d.close()
+
+
+def c03(p, tier, work, t0, replay):
+    src, vh = build_vh(work)
+    q = tier == "quick"
+    merged = vcheck.run_vh_batches(vh, p, tier, 16 if q else 32, work, 600 if q else 3000)
+    binary = vbuild.build(work, src, ".", os.path.join(work, "fan2go"))
+    rng = random.Random(vcheck.seed() * 7919 + 3)
+    n = 32 if q else 600
+    import concurrent.futures
+    lock = threading.Lock()
+    cases = [(i, random.Random(rng.random())) for i in range(n)]
+
+    def one(args):
+        i, r = args
+        local = vcheck.Merged(p)
+        c03_l2_scenario(binary, work, i, r, local)
+        with lock:
+            merged.evaluations += local.evaluations
+            merged.nontrivial |= local.nontrivial
+            merged.inconclusive += local.inconclusive
+            for k, v in local.sets.items():
+                merged.sets.setdefault(k, set()).update(v)
+            for s in local.samples:
+                if not any(isinstance(x, dict) and x.get("kind") == "process-level" for x in merged.samples):
+                    merged.samples.append(s)
+            for sig, v in local.violations.items():
+                merged.add_violation(sig, v["detail"], v.get("replay"), v["count"])
+    with concurrent.futures.ThreadPoolExecutor(max_workers=8) as ex:
+        list(ex.map(one, cases))
+    rule = ("two layers. In-process: controller.Run on hwmon/file devices in the virtual driver; regulation stopped when the n-th device I/O operation is issued (n random in 1..400 "
+            "resp. 1..1500 with initial analysis, densely in 1..12), after a delay falling into the start-up wait / first-second delay / ticking, or never (fan stalls at maximum = fatal "
+            "control error) x original mode {0,1,2,5} x original PWM {0,77,255} x with/without control mode x restore faults {mode write refused / silently ignored / pinned to 1, PWM "
+            "write refused}. Process level: the real daemon (1-3 fans, hwmon and file) receives 1..3 real SIGTERM/SIGINT, the first one in the start-up wait, the analysis, the "
+            "first-second delay or while ticking, the others 0 / 5 / 50 ms / 1 s later, with the same restore faults in the driver; exit status, absence of a Go panic trace and the "
+            "final-state predicate on the device files are checked. non-trivial = stop point reached / signal delivered; distinct by (class, stop point) resp. (phase, mode, faults, #signals)")
+    return vcheck.finish(p, tier, "fault_enumeration", merged, rule,
+                         TRUST_L1 + ["fixed waits of the controller divided by 50 in-process and by 10 for the daemon (tick rates 3-10 ms)", "SIGKILL / power loss are outside the statement"], t0)
+
+
+PROPS["C03"] = c03
